@@ -15,6 +15,7 @@ import (
 	clmodel "github.com/osmosis-labs/osmosis/v31/x/concentrated-liquidity/model"
 	cltypes "github.com/osmosis-labs/osmosis/v31/x/concentrated-liquidity/types"
 	"github.com/osmosis-labs/osmosis/v31/x/gamm/pool-models/balancer"
+	gammtypes "github.com/osmosis-labs/osmosis/v31/x/gamm/types"
 	pmtypes "github.com/osmosis-labs/osmosis/v31/x/poolmanager/types"
 	twaptypes "github.com/osmosis-labs/osmosis/v31/x/twap/types"
 
@@ -25,7 +26,7 @@ import (
 
 func TestMain(m *testing.M) { drv.Main(m) }
 
-const rule = "state machine on the real application: 1-2 balancer pools (2 assets, and 3 assets whose denoms share prefixes aaa/bbb/bbb2) and optionally one concentrated pool that is created empty or funded, drained (every position withdrawn: no spot price) and refilled, blocks with irregular spacing (1 ms .. days; in half of the cases with nanosecond parts, as real block times have, and queries at nanosecond offsets - the reference weights each segment by the difference of the millisecond-floored timestamps, the module's canonical time), price-moving swaps / joins / exits in some blocks and idle blocks, the twap module's EndBlock after every block (transient changed-pool set cleared as a commit would), pruning passes (twap epoch hook + EndBlock batches run to completion) and queries: every ordered pair of a pool, start/end on, between, before and after record times, ...ToNow variants; oracle: the harness records the end-of-block spot price it obtains itself from the pool manager after every block; arithmetic TWAP == trunc18(sum p_i dt_i / dt) exactly; geometric TWAP == 2^(sum log2(p_i) dt_i / dt) within relative 2e-7 (the module rounds the result to 8 significant figures and derives one quote direction from the reciprocal of the other's 8-significant-figure spot prices); both within [min,max] of the prices in force; the two geometric quote directions multiply to 1 within 4e-7; a start before the first record fails cleanly; an interval in which a drained pool's missing price is in force must return an error flag (intervals touching only the creation block of a pool funded in that block may or may not be flagged); answers for intervals inside the retention window are identical before and after a complete pruning pass; non-trivial = interval spans >= 2 records with different prices and does not start on a record; distinct by history+query hash"
+const rule = "state machine on the real application: 1-2 balancer pools (2 assets, and 3 assets whose denoms share prefixes aaa/bbb/bbb2; reserves 5..2e4 units in a third of the assets, else 1e6..1e12; all-asset joins and exits, whose per-asset rounding moves the price of a small pool, and single-asset joins) and optionally one concentrated pool that is created empty or funded, drained (every position withdrawn: no spot price) and refilled, blocks with irregular spacing (1 ms .. days; in half of the cases with nanosecond parts, as real block times have, and queries at nanosecond offsets - the reference weights each segment by the difference of the millisecond-floored timestamps, the module's canonical time), price-moving swaps / joins / exits in some blocks and idle blocks, the twap module's EndBlock after every block (transient changed-pool set cleared as a commit would), pruning passes (twap epoch hook + EndBlock batches run to completion) and queries: every ordered pair of a pool, start/end on, between, before and after record times, ...ToNow variants; oracle: the harness records the end-of-block spot price it obtains itself from the pool manager after every block; arithmetic TWAP == trunc18(sum p_i dt_i / dt) exactly; geometric TWAP == 2^(sum log2(p_i) dt_i / dt) within relative 2e-7 (the module rounds the result to 8 significant figures and derives one quote direction from the reciprocal of the other's 8-significant-figure spot prices); both within [min,max] of the prices in force; the two geometric quote directions multiply to 1 within 4e-7; a start before the first record fails cleanly; an interval in which a drained pool's missing price is in force must return an error flag (intervals touching only the creation block of a pool funded in that block may or may not be flagged); answers for intervals inside the retention window are identical before and after a complete pruning pass; non-trivial = interval spans >= 2 records with different prices and does not start on a record; distinct by history+query hash"
 
 type obs struct {
 	t time.Time
@@ -136,7 +137,12 @@ func TestPropTwap(t *testing.T) {
 		mkPool := func(denoms []string) {
 			var assets []balancer.PoolAsset
 			for _, d := range denoms {
-				assets = append(assets, balancer.PoolAsset{Weight: osmomath.NewInt(rapid.Int64Range(1, 10).Draw(rt, "w"+d)), Token: coin(d, rapid.Int64Range(1_000_000, 1_000_000_000_000).Draw(rt, "liq"+d))})
+				// reserves from a handful of units (every rounding of a join or exit moves the price) to 1e12
+				liq := rapid.Int64Range(1_000_000, 1_000_000_000_000).Draw(rt, "liq"+d)
+				if rapid.IntRange(0, 2).Draw(rt, "smallReserve"+d) == 0 {
+					liq = rapid.Int64Range(5, 20_000).Draw(rt, "liqSmall"+d)
+				}
+				assets = append(assets, balancer.PoolAsset{Weight: osmomath.NewInt(rapid.Int64Range(1, 10).Draw(rt, "w"+d)), Token: coin(d, liq)})
 			}
 			msg := balancer.NewMsgCreateBalancerPool(chain.Actor(0), balancer.PoolParams{SwapFee: osmomath.NewDecWithPrec(rapid.Int64Range(0, 100).Draw(rt, "feeBp"), 4), ExitFee: osmomath.ZeroDec()}, assets, "")
 			if r := c.Exec(&msg); !r.OK() {
@@ -433,6 +439,47 @@ func TestPropTwap(t *testing.T) {
 					if p.cl {
 						clChanged = true
 					}
+				}
+			},
+			"gammLiquidity": func(rt *rapid.T) {
+				// joins and exits of the classic pools: all-asset (rounded per asset: up on joins, down on exits) and single-asset
+				var cands []*pool
+				for _, p := range pools {
+					if !p.cl {
+						cands = append(cands, p)
+					}
+				}
+				p := cands[rapid.IntRange(0, len(cands)-1).Draw(rt, "pool")]
+				share := gammtypes.GetPoolShareDenom(p.id)
+				total := c.App.BankKeeper.GetSupply(c.Ctx, share).Amount
+				a := chain.Actor(rapid.IntRange(0, 1).Draw(rt, "actor"))
+				var r chain.ExecResult
+				var what string
+				switch rapid.IntRange(0, 2).Draw(rt, "liquidityOp") {
+				case 0:
+					out := total.MulRaw(rapid.Int64Range(1, 500).Draw(rt, "joinPermille")).QuoRaw(1000)
+					what = fmt.Sprintf("joinPool#%d %s shares", p.id, out)
+					r = c.Exec(&gammtypes.MsgJoinPool{Sender: a.String(), PoolId: p.id, ShareOutAmount: out, TokenInMaxs: nil})
+				case 1:
+					have := c.Bal(a, share).Amount
+					if !have.IsPositive() {
+						rt.Skip("no shares")
+					}
+					in := have.MulRaw(rapid.Int64Range(1, 900).Draw(rt, "exitPermille")).QuoRaw(1000)
+					if !in.IsPositive() {
+						rt.Skip("no shares")
+					}
+					what = fmt.Sprintf("exitPool#%d %s shares", p.id, in)
+					r = c.Exec(&gammtypes.MsgExitPool{Sender: a.String(), PoolId: p.id, ShareInAmount: in, TokenOutMins: nil})
+				default:
+					d := p.denoms[rapid.IntRange(0, len(p.denoms)-1).Draw(rt, "denom")]
+					amt := rapid.Int64Range(1, 1_000_000_000).Draw(rt, "amt")
+					what = fmt.Sprintf("joinSwapExtern#%d %d%s", p.id, amt, d)
+					r = c.Exec(&gammtypes.MsgJoinSwapExternAmountIn{Sender: a.String(), PoolId: p.id, TokenIn: coin(d, amt), ShareOutMinAmount: osmomath.OneInt()})
+				}
+				if r.OK() {
+					hist = append(hist, what)
+					cs.Class("classic-pool-join-or-exit")
 				}
 			},
 			"clAdd": func(rt *rapid.T) {
